@@ -137,7 +137,7 @@ Frame(inc, site, req) ==
     /\ running /\ frames < MaxFrames
     /\ site \in Sites /\ req[1] \in Reqs
     /\ (req[1] \in {"switch", "raise", "switchq", "direct"} => nextInst + 1 <= MaxInst)
-    /\ (req[1] \in {"poke", "respawn"} => inst[req[2]] # 0 /\ inst[req[2]] # curInst /\ Len(q[inst[req[2]]]) < 3)
+    /\ (req[1] \in {"poke", "respawn", "quitto"} => inst[req[2]] # 0 /\ inst[req[2]] # curInst /\ Len(q[inst[req[2]]]) < 3)
     /\ (req[1] \in {"nop"} => site = "p2")           \* a frame without request runs every site
     /\ frames' = frames + 1
     /\ (site = "co" => curInst \notin coUsed)
@@ -198,6 +198,11 @@ Frame(inc, site, req) ==
                [] req[1] = "quit_loop" ->
                     /\ Commit(Dispatch(s1, w, "on_quit", 0, 0)) /\ running' = FALSE /\ last' = NoTS /\ ret' = "returned"
                     /\ UNCHANGED <<cur, curInst>>
+               [] req[1] = "quitto" ->
+                    \* quit_loop(target) with an explicit target: on_quit goes to the GIVEN world - another, cached
+                    \* instance, which is muted and therefore holds it - not to the one that is running
+                    /\ Commit(Dispatch(s1, inst[req[2]], "on_quit", 0, 0)) /\ running' = FALSE /\ last' = NoTS /\ ret' = "returned"
+                    /\ UNCHANGED <<cur, curInst>>
                [] req[1] = "clrquit" ->
                     \* the running code drops the cache of the current handle, then calls quit_loop(): on_quit still
                     \* goes to the world that is running, which stays the loop's current world
@@ -214,7 +219,7 @@ Frame(inc, site, req) ==
 ReqSet == {<<"nop", "-", FALSE, FALSE>>, <<"quit", "-", FALSE, FALSE>>, <<"quit_loop", "-", FALSE, FALSE>>,
            <<"clrquit", "-", FALSE, FALSE>>, <<"qlerr", "-", FALSE, FALSE>>,
            <<"error", "-", FALSE, FALSE>>}
-          \cup {<<k, h, FALSE, FALSE>> : k \in {"poke", "switchq", "direct", "respawn"}, h \in Hs}
+          \cup {<<k, h, FALSE, FALSE>> : k \in {"poke", "switchq", "direct", "respawn", "quitto"}, h \in Hs}
           \cup {<<k, h, cc, cn>> : k \in {"switch", "raise"}, h \in Hs, cc \in BOOLEAN, cn \in BOOLEAN}
 
 Next == \/ (\E h \in Hs : InitialSwitch(h))
@@ -236,7 +241,11 @@ LastIsReading == [][(IsFrame /\ running') => last' = now']_vars
 QuitReturnsNormally == [][(IsFrame /\ ret' = "returned") =>
                             /\ ~running' /\ last' = NoTS
                             /\ (Len(Evs(log', "on_switch_out")) = 0 => cur' = cur /\ curInst' = curInst)]_vars
-OnQuitDeliveredInCurrent == [][(IsFrame /\ ret' = "returned") => \A i \in 1..Len(Evs(log', "on_quit")) : Evs(log', "on_quit")[i][2] = curInst]_vars
+\* on_quit goes to the current world, or to the world given to quit_loop (request "quitto") - never anywhere else
+OnQuitDeliveredInCurrent ==
+    [][\A inc \in Incs, site \in Sites, req \in ReqSet : (Frame(inc, site, req) /\ ret' = "returned") =>
+          \A i \in 1..Len(Evs(log', "on_quit")) :
+              Evs(log', "on_quit")[i][2] = (IF req[1] = "quitto" THEN inst[req[2]] ELSE curInst)]_vars
 StartAlwaysFresh == (~running) => last = NoTS
 
 \* C13
